@@ -63,6 +63,10 @@ def gen_tests(tier):
         for f in testgen.FAIL_KINDS:
             for cfg in (CONFIGS_FULL if tier != "quick" else CONFIGS_QUICK):
                 out.append((cfg, {"sig": sig2, "shape": "single", "guards": [g], "fails": [f]}))
+    # a Panic whose code is symbolic: Panic(x) under a guard that admits the configured code
+    for g in ("x<3", "x!=y", "y==5"):
+        for cfg in (CONFIG_DEFAULT, CONFIG_Z3):
+            out.append((cfg, {"sig": sig2, "shape": "single", "guards": [g], "fails": ["panicx"]}))
     # nested pairs
     G2 = SQ if tier == "quick" else SA
     for g1, g2 in itertools.product(G2, repeat=2):
